@@ -137,6 +137,17 @@ Definition d_dealloc (st : det) (a : N) : det * bool :=
   | (None, _) => (st, true)
   | (Some _, t') => (with_tbl st t', false)
   end.
+(* reallocMemory of a tracked block when reallocateMemoryAndLeakInformation returns NULL (PlatformSpecificRealloc failed, or the
+   separate record could not be allocated): the record taken out by removeNode is handed back by memoryTable_.addNewNode(node)
+   -- the same record (number, size, location, period, stage), now at the head of its bucket; nothing else is touched, the
+   sequence counter included.  true = "Deallocating non-allocated memory" was reported *)
+Definition d_realloc_failed (st : det) (a : N) : det * bool :=
+  match t_remove a (d_tbl st) with
+  | (None, _) => (st, true)
+  | (Some n, t') => (with_tbl st (t_add n t'), false)
+  end.
+(* the code before the repair 3db681c: the record of the still valid block stayed removed *)
+Definition d_realloc_failed_old (st : det) (a : N) : det * bool := d_dealloc st a.
 (* unsigned char current_allocation_stage_ *)
 Definition stage_inc (s : N) : N := (s + 1) mod 256.
 Definition stage_dec (s : N) : N := (s + 255) mod 256.
@@ -195,7 +206,13 @@ Inductive op :=
 | OpMark
 | OpClear (p : period)
 | OpTotals
-| OpReport (p : period).
+| OpReport (p : period)
+(* requests whose underlying allocator call fails (the failure is scenario input: an oracle for the allocator).
+   w names the call that fails: 1 = the block itself (TestMemoryAllocator::alloc_memory / PlatformSpecificRealloc returns NULL),
+   2 = the separate bookkeeping record (allocMemoryLeakNode returns NULL; with the inline layout, where there is no such call,
+   the block).  The accounting must not depend on w: the model ignores it. *)
+| OpAllocFail (size kind file line w : N)
+| OpReallocFail (a : option N) (size kind file line w : N).
 
 Record entry := mkEntry { e_addr : N; e_size : N; e_number : N; e_file : N; e_line : N; e_kind : N }.
 Definition entry_of (n : node) : entry := mkEntry (n_addr n) (n_size n) (n_number n) (n_file n) (n_line n) (n_kind n).
@@ -203,10 +220,12 @@ Definition entry_of (n : node) : entry := mkEntry (n_addr n) (n_size n) (n_numbe
 Inductive oitem :=
 | OF (nonalloc other : bool)                       (* free/realloc: "non-allocated" reported? any other failure reported? *)
 | OT (t_all t_dis t_en t_chk : N)                  (* totalMemoryLeaks of the four periods *)
-| OR (noleaks toomany : bool) (total : N) (entries : list entry)
+| OR (noleaks toomany : bool) (total : N) (entries : list entry) (mnote : bool)   (* mnote: the note about malloc/free is printed *)
 | OS (nonalloc other : N)                          (* stage release: failures reported while releasing *)
 | OErr.                                            (* a loop ran out of fuel: never happens (proved) *)
 
+(* StrCmp(leak->allocator_->alloc_name(), "malloc") == 0 *)
+Definition is_malloc (n : node) : bool := n_kind n =? 2.
 Definition c_step (st : det) (o : op) : det * option oitem :=
   match o with
   | OpAlloc a sz k f l => (d_store st a sz k f l, None)
@@ -228,8 +247,14 @@ Definition c_step (st : det) (o : op) : det * option oitem :=
   | OpTotals => (st, Some (OT (t_total PAll (d_tbl st)) (t_total PDisabled (d_tbl st))
                               (t_total PEnabled (d_tbl st)) (t_total PChecking (d_tbl st))))
   | OpReport p => match d_report p st with
-                  | Some l => (st, Some (OR (match l with [] => true | _ => false end) false (N.of_nat (length l)) (map entry_of l)))
+                  | Some l => (st, Some (OR (match l with [] => true | _ => false end) false (N.of_nat (length l)) (map entry_of l)
+                                            (existsb is_malloc l)))     (* giveWarningOnUsingMalloc_ *)
                   | None => (st, Some OErr) end
+  (* allocMemory: alloc_memory returned NULL, or the record could not be had and the block was given back: return NULLPTR *)
+  | OpAllocFail _ _ _ _ _ => (st, Some (OF false false))
+  (* reallocMemory(NULL, ...): nothing was removed, reallocateMemoryAndLeakInformation returned NULL *)
+  | OpReallocFail None _ _ _ _ _ => (st, Some (OF false false))
+  | OpReallocFail (Some a) _ _ _ _ _ => let (st', nal) := d_realloc_failed st a in (st', Some (OF nal false))
   end.
 
 Fixpoint c_run (st : det) (ops : list op) : list oitem :=
@@ -281,7 +306,12 @@ Definition a_step (s : astate) (o : op) : astate * option oitem :=
   | OpClear p => (a_with_recs s (filter (fun n => negb (applies p n)) (a_recs s)), None)
   | OpTotals => (s, Some (OT (count PAll (a_recs s)) (count PDisabled (a_recs s)) (count PEnabled (a_recs s)) (count PChecking (a_recs s))))
   | OpReport p => let out := filter (applies p) (a_recs s) in
-                  (s, Some (OR (match out with [] => true | _ => false end) false (N.of_nat (length out)) (map entry_of out)))
+                  (s, Some (OR (match out with [] => true | _ => false end) false (N.of_nat (length out)) (map entry_of out)
+                               (existsb is_malloc out)))
+  (* a request the underlying allocator refuses hands out nothing and releases nothing: the map stays as it is *)
+  | OpAllocFail _ _ _ _ _ => (s, Some (OF false false))
+  | OpReallocFail None _ _ _ _ _ => (s, Some (OF false false))
+  | OpReallocFail (Some a) _ _ _ _ _ => (s, Some (OF (negb (live a (a_recs s))) false))
   end.
 
 (* preconditions: the underlying allocator hands out addresses that are not in use (its contract); a block is
@@ -295,6 +325,7 @@ Definition op_ok (s : astate) (o : op) : bool :=
   | OpFree (Some a) k => kind_ok a k (a_recs s)
   | OpRealloc None na _ _ _ _ => negb (live na (a_recs s))
   | OpRealloc (Some a) na _ k _ _ => kind_ok a k (a_recs s) && (negb (live a (a_recs s)) || negb (live na (drop a (a_recs s))))
+  | OpReallocFail (Some a) _ k _ _ _ => kind_ok a k (a_recs s)
   | _ => true
   end.
 Fixpoint valid_from (s : astate) (ops : list op) : bool :=
@@ -315,9 +346,12 @@ Definition check_item (e x : oitem) : bool :=
   match e, x with
   | OF na _, OF na' oth' => Bool.eqb na na' && negb oth'
   | OT a b c d, OT a' b' c' d' => (a =? a') && (b =? b') && (c =? c') && (d =? d')
-  | OR nl _ tot out, OR nl' many' tot' ents' =>
-      Bool.eqb nl nl' && (tot =? tot') &&
-      (if many' then subset_e ents' out && nodup_e ents'                  (* report cut short by the 4096-byte buffer (C14) *)
+  (* whether or not the report was cut short, "no leaks" and the footer "Total number of leaks" are those of the outstanding
+     set of the period, and the malloc note is there iff a malloc block is in that set *)
+  | OR nl _ tot out mn, OR nl' many' tot' ents' mn' =>
+      Bool.eqb nl nl' && (tot =? tot') && Bool.eqb mn mn' &&
+      (if many' then subset_e ents' out && nodup_e ents' &&               (* report cut short by the 4096-byte buffer (C14): *)
+                     negb (Nat.eqb (length ents') 0)                       (* distinct outstanding blocks, at least the first *)
        else subset_e ents' out && subset_e out ents' && Nat.eqb (length ents') (length out))
   | OS _ _, OS na' oth' => (na' =? 0) && (oth' =? 0)
   | _, _ => false
